@@ -22,14 +22,22 @@
        parameters the left side is the expected cumulative regret the solver holds
        ([theories/SampledMartingale.v], [theories/ExternalMartingale.v]).
 
-    NOT proved: the probabilistic clause ("with overwhelming probability the *true*
-    regret of the returned profile is below D*N*sqrt(A)/sqrt(T)") — concentration over
-    the sampling history is out of scope. *)
+    5. (round 3) a probability bound by the second-moment method (orthogonality of the differences,
+       Chebyshev): the cumulative regret the chance-sampled solver holds for an action is, with
+       probability at least 1 - 4 D^2 T / lam^2, within [lam] of the true cumulative counterfactual regret
+       along its own trajectory; the average deviation per iteration vanishes in probability as T grows
+       ([theories/SampledConcentration.v]).
+
+    NOT proved: the probabilistic clause for the *returned profile* ("with overwhelming
+    probability the true regret of the returned profile is below D*N*sqrt(A)/sqrt(T)"): items 4
+    and 5 control the cumulative counterfactual regrets along the sampled trajectory; carrying
+    that over to the returned average profile needs a concentration argument for the random
+    averaging weights of the sampled traversals as well, which is not formalised. *)
 From Coq Require Import Reals List Bool NArith.
 From Cfr.theories Require Import Num RInst Tree GameWF Valid Strat Eval Solve SolveValidProofs
      LoopProofs Incr IterChar RmPotential CfMass CfrRate ExtIncr SampledRate ExternalRate
      Unbiased ExternalUnbiased VanillaMulti ParallelProofs ExternalMulti ExternalProofs
-     SampledMultiRate SampledMartingale ExternalMartingale.
+     SampledMultiRate SampledMartingale ExternalMartingale SampledConcentration.
 From Coq Require Import Permutation.
 Import ListNotations.
 Open Scope R_scope.
@@ -219,6 +227,109 @@ Theorem C04_external_run_tower :
       expect_run_ext g p n 1 (@init_state RNum g) (ext_true_sum g p me i a 1 (@init_state RNum g)).
 Proof. exact ext_run_tower. Qed.
 
+(** 7. (round 3) the first probability bound: the differences between sampled and true increments are
+    pairwise orthogonal, so the second moment of their sum over T iterations is the sum of the second moments,
+    at most 4 D^2 T; by Chebyshev's inequality (in its finite-expectation form: [expect_run] of an indicator is
+    the total weight of the draw histories on which the event holds) the cumulative regret that the
+    chance-sampled solver accumulates for an action deviates from the true cumulative counterfactual regret
+    along the trajectory it actually plays by [lam] or more with probability at most [4 D^2 T / lam^2]; the
+    average deviation per iteration exceeds [eps] with probability at most [4 D^2 / (eps^2 T)], which tends to
+    zero; for the vanilla parameters the statement is about the [cum_regret] the solver itself holds.
+    *)
+Theorem C04_md_orthogonal :
+  forall (g : @game RNum) (p : @params RNum), WFgame g -> ChanceOK g -> NoRepeat (g_root g) ->
+  forall pl i a s t T, (s < t)%nat -> (t < T)%nat ->
+    expect_run (g_chance g) T (fun ds => md g p pl i a ds s * md g p pl i a ds t) = 0.
+Proof. exact md_orthogonal. Qed.
+
+Theorem C04_mart_second_moment :
+  forall (g : @game RNum) (p : @params RNum), WFgame g -> ChanceOK g -> NoRepeat (g_root g) ->
+  forall pl i a T,
+    expect_run (g_chance g) T (fun ds => mart g p pl i a T ds ^ 2) =
+    sum_upto T (fun t => expect_run (g_chance g) T (fun ds => md g p pl i a ds t ^ 2)).
+Proof. exact mart_second_moment. Qed.
+
+Theorem C04_chebyshev_run :
+  forall rows n lam (f : list (list nat) -> R),
+    Forall (Forall (fun x => 0 <= x)) rows -> 0 < lam ->
+    expect_run rows n (fun ds => ind_ge lam (f ds)) <= expect_run rows n (fun ds => f ds ^ 2) / lam ^ 2.
+Proof. exact chebyshev_run. Qed.
+
+Theorem C04_md_abs_bound :
+  forall (g : @game RNum) (p : @params RNum) lo hi,
+    WFgame g -> PerfectRecall g -> ChanceOK g -> PayoffsIn lo hi (g_root g) ->
+  forall pl i a, (i < length (arities g pl))%nat -> (a < nth i (arities g pl) O)%nat ->
+  forall T ds t, history_in (g_chance g) T ds -> (t < T)%nat ->
+    Rabs (md g p pl i a ds t) <= 2 * (hi - lo).
+Proof. exact md_abs_bound. Qed.
+
+Theorem C04_mart_second_moment_bound :
+  forall (g : @game RNum) (p : @params RNum) lo hi,
+    WFgame g -> PerfectRecall g -> ChanceOK g -> PayoffsIn lo hi (g_root g) ->
+  forall pl i a, (i < length (arities g pl))%nat -> (a < nth i (arities g pl) O)%nat ->
+  NoRepeat (g_root g) ->
+  forall T, expect_run (g_chance g) T (fun ds => mart g p pl i a T ds ^ 2) <= 4 * (hi - lo) ^ 2 * INR T.
+Proof. exact mart_second_moment_bound. Qed.
+
+Theorem C04_sampled_chebyshev_explicit :
+  forall (g : @game RNum) (p : @params RNum) lo hi,
+    WFgame g -> PerfectRecall g -> ChanceOK g -> PayoffsIn lo hi (g_root g) ->
+  forall pl i a, (i < length (arities g pl))%nat -> (a < nth i (arities g pl) O)%nat ->
+  NoRepeat (g_root g) ->
+  forall T lam, 0 < lam ->
+    expect_run (g_chance g) T
+      (fun ds => if Rle_dec lam (Rabs (sum_upto T (sampled_inc_at g p pl i a ds) -
+                                       sum_upto T (true_inc_at g p pl i a ds)))
+                 then 1 else 0) <=
+    4 * (hi - lo) ^ 2 * INR T / lam ^ 2.
+Proof. exact sampled_chebyshev_explicit. Qed.
+
+Theorem C04_sampled_chebyshev_rate :
+  forall (g : @game RNum) (p : @params RNum) lo hi,
+    WFgame g -> PerfectRecall g -> ChanceOK g -> PayoffsIn lo hi (g_root g) -> NoRepeat (g_root g) ->
+  forall pl i a, (i < length (arities g pl))%nat -> (a < nth i (arities g pl) O)%nat ->
+  forall T eps, (0 < T)%nat -> 0 < eps ->
+    expect_run (g_chance g) T (fun ds => ind_ge eps (mart g p pl i a T ds / INR T)) <=
+    4 * (hi - lo) ^ 2 / (eps ^ 2 * INR T).
+Proof. exact sampled_chebyshev_rate. Qed.
+
+Theorem C04_sampled_deviation_vanishes :
+  forall (g : @game RNum) (p : @params RNum) lo hi,
+    WFgame g -> PerfectRecall g -> ChanceOK g -> PayoffsIn lo hi (g_root g) -> NoRepeat (g_root g) ->
+  forall pl i a, (i < length (arities g pl))%nat -> (a < nth i (arities g pl) O)%nat ->
+  forall eps delta, 0 < eps -> 0 < delta ->
+    exists T0 : nat, forall T, (T0 <= T)%nat ->
+      expect_run (g_chance g) T (fun ds => ind_ge eps (mart g p pl i a T ds / INR T)) <= delta.
+Proof. exact sampled_deviation_vanishes. Qed.
+
+Theorem C04_sampled_chebyshev_vanilla :
+  forall (g : @game RNum) lo hi,
+    WFgame g -> PerfectRecall g -> ChanceOK g -> PayoffsIn lo hi (g_root g) -> NoRepeat (g_root g) ->
+  forall pl i a, (i < length (arities g pl))%nat -> (a < nth i (arities g pl) O)%nat ->
+  forall T lam, 0 < lam ->
+    expect_run (g_chance g) T (fun ds => ind_ge lam (regret_dev g pl i a T ds)) <=
+    4 * (hi - lo) ^ 2 * INR T / lam ^ 2.
+Proof. exact sampled_chebyshev_vanilla. Qed.
+
+Theorem C04_sampled_deviation_vanishes_vanilla :
+  forall (g : @game RNum) lo hi,
+    WFgame g -> PerfectRecall g -> ChanceOK g -> PayoffsIn lo hi (g_root g) -> NoRepeat (g_root g) ->
+  forall pl i a, (i < length (arities g pl))%nat -> (a < nth i (arities g pl) O)%nat ->
+  forall eps delta, 0 < eps -> 0 < delta ->
+    exists T0 : nat, forall T, (T0 <= T)%nat ->
+      expect_run (g_chance g) T (fun ds => ind_ge eps (regret_dev g pl i a T ds / INR T)) <= delta.
+Proof. exact sampled_deviation_vanishes_vanilla. Qed.
+
+Print Assumptions C04_md_orthogonal.
+Print Assumptions C04_mart_second_moment.
+Print Assumptions C04_chebyshev_run.
+Print Assumptions C04_md_abs_bound.
+Print Assumptions C04_mart_second_moment_bound.
+Print Assumptions C04_sampled_chebyshev_explicit.
+Print Assumptions C04_sampled_chebyshev_rate.
+Print Assumptions C04_sampled_deviation_vanishes.
+Print Assumptions C04_sampled_chebyshev_vanilla.
+Print Assumptions C04_sampled_deviation_vanishes_vanilla.
 Print Assumptions C04_sampled_md_step.
 Print Assumptions C04_sampled_md_orthogonal.
 Print Assumptions C04_sampled_run_tower.
